@@ -33,7 +33,9 @@ try:
                 p = subprocess.run(["python3", "/verif/checks/run.py", chk], capture_output=True, text=True, cwd="/verif", env=env)
                 viol = [l for l in p.stdout.splitlines() if l.startswith("VIOLATION")]
                 und = [l for l in p.stdout.splitlines() if l.startswith("UNDECIDED")]
-                if p.returncode == 1 or viol:
+                if p.returncode != 0 and not viol:
+                    hits.setdefault("_undecided", {})[chk] = "check crashed: " + (p.stderr or p.stdout)[-200:]
+                elif viol:
                     hits[chk] = [v.split("obligation=")[1].split(" ")[0] if "obligation=" in v else v[:80] for v in viol][:4]
                 elif und:
                     hits.setdefault("_undecided", {})[chk] = len(und)
